@@ -446,7 +446,9 @@ void MEDDLY::saturation_set_mtrel<EOP, ATYPE>::saturate_1(int L,
     //
     // Copy A to C, saturating children as we go
     //
-    unpacked_node* Au = unpacked_node::New(resF, SPARSE_ONLY);
+    // Full storage: for integer distances, a child with terminal 0 is
+    // "distance 0", not "unreachable", so it must not be skipped.
+    unpacked_node* Au = unpacked_node::New(resF, FULL_ONLY);
     const int Alevel = resF->getNodeLevel(A);
     if (Alevel < L) {
         edge_value zero;
@@ -469,8 +471,7 @@ void MEDDLY::saturation_set_mtrel<EOP, ATYPE>::saturate_1(int L,
         node_handle cdp;
         edge_value cdv;
         saturate_1(L-1, edgeval(Au, z), Au->down(z), cdv, cdp);
-        const unsigned i = Au->index(z);
-        Cu->setFull(i, cdv, cdp);
+        Cu->setFull(z, cdv, cdp);
     }
 
     unpacked_node::Recycle(Au);
@@ -542,7 +543,7 @@ void MEDDLY::saturation_set_mtrel<EOP, ATYPE>::
     unsigned i, j;
     node_handle d;
     for (i=0; i<Cu->getSize(); i++) {
-        if (Cu->down(i)) {
+        if (!ATYPE::isUnreachable(edgeval(Cu, i), Cu->down(i))) {
             explorers[L].wasUpdated(i);
         }
     }
